@@ -23,8 +23,8 @@ import numpy as np
 import vlib
 from vlib import rlit
 
-GEN = ['Recovery', 'Gauss', 'Sphere']
-EXTRA_TARGETS = ['Refuted/C01_amp_bound.vo']
+GEN = ['Recovery', 'Gauss', 'Sphere', 'SmallIsland']
+EXTRA_TARGETS = ['Refuted/C01_amp_bound.vo', 'Refuted/C01_shape_cap.vo']
 LEVEL = 'proof'
 TRUSTED = [
     'Coq 8.16.1 kernel; Coquelicot; the real-number axioms of the standard library and functional extensionality as listed by Print Assumptions',
@@ -203,7 +203,7 @@ def box_conditions(spec, innerclip=5.0):
     ext = (int(isl[:, 0].max() - isl[:, 0].min() + 1), int(isl[:, 1].max() - isl[:, 1].min() + 1)) if len(isl) else (0, 0)
     cap = max((max(ext) + 1) * math.sqrt(2) / CC, max(ba / CC, bb / CC * 1.01) * 1.1)
     return {'g': g, 'amp_condition': lhs <= innerclip * rms, 'amp_margin': (innerclip * rms - lhs) / abs(amp), 'single_summit': nsummit == 1,
-            'island_extent': ext, 'cap_condition': sx <= cap * (1 + 1e-12), 'cap_margin': (cap - sx) / sx,
+            'island_extent': ext, 'island_npix': int(len(isl)), 'cap_condition': sx <= cap * (1 + 1e-12), 'cap_margin': (cap - sx) / sx,
             'position_condition': 2 * sx ** 2 <= sy ** 2 * (ba ** 2 + bb ** 2) * (1 + 1e-12),
             'beam_condition': bb / CC <= sy * (1 + 1e-12)}
 
@@ -777,9 +777,13 @@ def run(ctx, model_ok=True):
     worst_rt = worst_conf = worst_scale = 0.0
     nfail = 0
 
+    flagcases = []
+
     def one(spec, k, bucket, tag):
         nonlocal nfail
         cls, msg, rows, tr, c = classify(ctx, spec, tag)
+        if rows and len({r['island'] for r in rows}) == 1:
+            flagcases.append((spec, c['island_npix'], min(c['island_extent']), len(rows), [r['flags'] for r in rows]))
         ctx.case(key=(bucket, k, spec['proj'], spec['snr'], round(spec['th'], 3)), bucket=f"{bucket} {spec['proj']} {'cov' if spec['docov'] else 'nocov'}",
                  sample={'injection': spec, 'amp_condition': c['amp_condition'], 'result': msg or 'recovered'} if k < 2 else None)
         if cls == 'ridge_split':
@@ -825,6 +829,27 @@ def run(ctx, model_ok=True):
     ctx.extra['narrow'] = {'classes': nar, 'island_widths': widths}
     ctx.notes.append(f"narrow-island injections (minor axis = beam, along a pixel axis, S/N 5.4-14): {nar}; island widths {widths}")
     ctx.notes.append(f"elongated injections (axis ratio 2.5-5, all orientations, S/N 20 / 100): {el}")
+    # flags of every reported component = Model.SmallIsland.fit_flags of its island (optimiser bits FITERR, WCSERR put aside)
+    if model_ok and flagcases:
+        pre = 'From Coq Require Import ZArith NArith.\nFrom Aegean Require Import Gen.SmallIsland Model.SmallIsland.\nOpen Scope Z_scope.\n'
+        uniq = sorted({(n, d, c) for _, n, d, c, _ in flagcases})
+        vals, err = vlib.coq_eval(ctx, pre, [f'Z.of_N (fit_flags {n} {d} {c})' for n, d, c in uniq])
+        if vals is None:
+            ctx.oblige('model evaluation (vm_compute) of Model.SmallIsland.fit_flags', False, err)
+        else:
+            want = dict(zip(uniq, [int(v) for v in vals]))
+            nbadf = 0
+            for spec, n, d, c, fl in flagcases:
+                got = {f & ~(2 | 32) for f in fl}
+                if got != {want[(n, d, c)]}:
+                    nbadf += 1
+                    if nbadf <= 2:
+                        what = (f'island of {n} pixels, {d} pixels across, {c} component(s): flags {fl} but estimate_lmfit_parinfo / _fit_island '
+                                f'of the unmodified code give {want[(n, d, c)]} (FIXED2PSF = 4: the shape is not fitted)')
+                        ctx.mismatch('flags of the reported components vs Model.SmallIsland.fit_flags', {'injection': spec}, impl=fl, model=want[(n, d, c)],
+                                     is_violation={'kind': 'loop', 'injection': spec, 'what': what} if (4 in {g & 4 for g in got}) and not want[(n, d, c)] & 4 else None)
+            ctx.oblige(f'correspondence: flags of the components of {len(flagcases)} injected islands ({len(uniq)} distinct (pixels, width, components)) '
+                       f'= Model.SmallIsland.fit_flags', nbadf == 0, f'{nbadf} differ')
     nsat = stats['satisfied_pass'] + stats['satisfied_fail']
     ctx.oblige(f'optimiser hypothesis (closed loop): of {nloop + nel + nnar} noise-free injections ({nel} with axis ratio 2.5-5, {nnar} with islands 3-5 pixels across) the {nsat} that satisfy '
                f'amp (1 - 1.05 g) <= innerclip rms and sx <= island-size cap, whose island is more than 2 pixels across, and do not show the recorded ridge-split signature are recovered within the tolerances',
